@@ -102,3 +102,76 @@ pub fn vnon_matching_dests(fls: &SmallVec<FileLocation>) -> (r: SmallVec<(usize,
 // fls.iter().all(|fl| !fl.matches)
 #[verifier::external_body]
 pub fn vnone_matches(fls: &SmallVec<FileLocation>) -> (r: bool) ensures r == !any_matches(fls.v@), { unimplemented!() }
+
+// ---- accounting over ALL packs: exactly what from_pack does to the outstanding-copy counts, and why every needed blob
+//      ends up with a keeper ----
+// number of entries with key k among the first n blobs of a pack
+pub open spec fn occ(b: Seq<IndexBlob>, k: (BlobType, u64), n: int) -> int
+    decreases n
+{
+    if n <= 0 { 0 } else { occ(b, k, n - 1) + (if bkey(b[n - 1]) == k { 1int } else { 0int }) }
+}
+pub open spec fn in_pack(b: Seq<IndexBlob>, k: (BlobType, u64)) -> bool { exists|i: int| 0 <= i < b.len() && bkey(#[trigger] b[i]) == k }
+pub proof fn lemma_occ_bounds(b: Seq<IndexBlob>, k: (BlobType, u64), n: int)
+    requires 0 <= n <= b.len(),
+    ensures 0 <= occ(b, k, n) <= n, (occ(b, k, n) >= 1) == (exists|i: int| 0 <= i < n && bkey(#[trigger] b[i]) == k),
+    decreases n
+{
+    if n > 0 {
+        lemma_occ_bounds(b, k, n - 1);
+        if bkey(b[n - 1]) == k { assert(exists|i: int| 0 <= i < n && bkey(#[trigger] b[i]) == k) by { assert(bkey(b[n - 1]) == k); } }
+        else if occ(b, k, n - 1) >= 1 { let i = choose|i: int| 0 <= i < n - 1 && bkey(#[trigger] b[i]) == k; assert(bkey(b[i]) == k); }
+        else { assert forall|i: int| 0 <= i < n implies bkey(#[trigger] b[i]) != k by { if i < n - 1 { } } }
+    }
+}
+// THE contract of PackInfo::from_pack as a relation between the counts before and after one pack
+pub open spec fn fp_post(m0: Map<(BlobType, u64), u8>, b: Seq<IndexBlob>, m1: Map<(BlobType, u64), u8>, used: bool) -> bool {
+    &&& m1.dom() == m0.dom()
+    &&& forall|k: (BlobType, u64)| #![trigger outstanding(m1, k)] outstanding(m1, k) <= outstanding(m0, k)
+    &&& forall|k: (BlobType, u64)| #![trigger outstanding(m1, k)] !in_pack(b, k) ==> outstanding(m1, k) == outstanding(m0, k)
+    &&& !used ==> forall|k: (BlobType, u64)| #![trigger outstanding(m1, k)] outstanding(m0, k) >= 1 ==> outstanding(m1, k) >= 1 && outstanding(m1, k) == outstanding(m0, k) - occ(b, k, b.len() as int)
+    &&& used ==> forall|i: int| 0 <= i < b.len() ==> outstanding(m1, bkey(#[trigger] b[i])) == 0
+}
+// total number of entries with key k in the first j packs
+pub open spec fn total_occ(packs: Seq<Seq<IndexBlob>>, k: (BlobType, u64), j: int) -> int
+    decreases j
+{
+    if j <= 0 { 0 } else { total_occ(packs, k, j - 1) + occ(packs[j - 1], k, packs[j - 1].len() as int) }
+}
+// as long as no pack that holds k was counted as used, k's count is the initial one minus the entries seen
+pub proof fn lemma_unused_holders_only_decrement(packs: Seq<Seq<IndexBlob>>, ms: Seq<Map<(BlobType, u64), u8>>, used: Seq<bool>, k: (BlobType, u64), j: int)
+    requires
+        0 <= j <= packs.len(), ms.len() == packs.len() + 1, used.len() == packs.len(),
+        forall|i: int| 0 <= i < packs.len() ==> fp_post(#[trigger] ms[i], packs[i], ms[i + 1], used[i]),
+        outstanding(ms[0], k) >= 1,
+        forall|i: int| 0 <= i < j ==> !(#[trigger] used[i] && in_pack(packs[i], k)),
+    ensures outstanding(ms[j], k) >= 1, outstanding(ms[j], k) == outstanding(ms[0], k) - total_occ(packs, k, j),
+    decreases j
+{
+    if j > 0 {
+        lemma_unused_holders_only_decrement(packs, ms, used, k, j - 1);
+        let i = j - 1;
+        assert(fp_post(ms[i], packs[i], ms[i + 1], used[i]));
+        lemma_occ_bounds(packs[i], k, packs[i].len() as int);
+        if !in_pack(packs[i], k) {
+            assert(outstanding(ms[i + 1], k) == outstanding(ms[i], k));
+        } else {
+            assert(!used[i]);
+            assert(outstanding(ms[i + 1], k) == outstanding(ms[i], k) - occ(packs[i], k, packs[i].len() as int));
+        }
+    }
+}
+// KEEPER THEOREM: if the counts start at no more than the number of index entries of each needed blob (count_used_blobs:
+// one per entry, saturating), then after from_pack has seen all packs every needed blob that is indexed at all lies in a
+// pack that was counted as USED (and the per-pack decision never removes a used pack: unit decide_one_pack)
+pub proof fn theorem_every_needed_blob_has_a_keeper(packs: Seq<Seq<IndexBlob>>, ms: Seq<Map<(BlobType, u64), u8>>, used: Seq<bool>, k: (BlobType, u64))
+    requires
+        ms.len() == packs.len() + 1, used.len() == packs.len(),
+        forall|i: int| 0 <= i < packs.len() ==> fp_post(#[trigger] ms[i], packs[i], ms[i + 1], used[i]),
+        1 <= outstanding(ms[0], k) <= total_occ(packs, k, packs.len() as int),
+    ensures exists|i: int| 0 <= i < packs.len() && #[trigger] used[i] && in_pack(packs[i], k),
+{
+    if !(exists|i: int| 0 <= i < packs.len() && #[trigger] used[i] && in_pack(packs[i], k)) {
+        lemma_unused_holders_only_decrement(packs, ms, used, k, packs.len() as int);
+    }
+}
